@@ -27,6 +27,9 @@ Fixpoint walk (observed : list obs) (inv ret : list Z) : list nat :=
       (if has_serve_ret (o_events o) && negb (o_hs o =? 0) then [3%nat] else [])
       (* 4: once Serve has returned the context of every handler still running is done *)
       ++ (if o_serve o && negb (forallb (fun h => memZ h ret' || memZ h (o_ctx o)) inv') then [4%nat] else [])
+      (* 5: whenever Serve has returned and every handler started so far has returned, nothing of the connection is alive *)
+      ++ (if o_serve o && forallb (fun h => memZ h ret') inv'
+             && negb ((o_writer o =? 0) && (o_workers o =? 0) && (o_hs o =? 0)) then [5%nat] else [])
       (* 3: Serve's return is reported by both the event and the flag *)
       ++ (if has_serve_ret (o_events o) && negb (o_serve o) then [3%nat] else [])
       ++ walk rest inv' ret'
